@@ -185,6 +185,24 @@ def g_view(p):
     return users, owners, zero_owner
 
 
+class _Init:
+    pass
+
+
+def g_initial(sc):
+    """the state before the first request: the rows the scenario head creates, nothing loaded"""
+    p = _Init()
+    p.loaded = False
+    p.cusers, p.csess, p.cache = {}, {}, {}
+    head = dict(x.split("=") for x in sc.head[0].split()[2:])
+    p.subs = {int(head["owner"]): dict(want=mstr(int(head["ownerwant"])), given=mstr(int(head["ownergiven"])), deleted=False)}
+    for l in sc.head:
+        w = l.split()
+        if w[0] == "subrow":
+            p.subs[int(w[1])] = dict(want=mstr(int(w[2].split("=")[1])), given=mstr(int(w[3].split("=")[1])), deleted=False)
+    return p
+
+
 def g_monitor(sc, views):
     res = []
     head = dict(x.split("=") for x in sc.head[0].split()[2:])
@@ -194,7 +212,7 @@ def g_monitor(sc, views):
         w = l.split()
         if w[0] == "user":
             acc[int(w[1])] = int(w[2].split("=")[1])
-    prev = None
+    prev = g_initial(sc)
     for k, v in enumerate(views):
         fault, kind, args = sc.ops[k]
         a = sc.sessions.get(args[0]) if args else None
@@ -202,19 +220,20 @@ def g_monitor(sc, views):
         livec = sum(1 for s in v.subs.values() if not s["deleted"])
         if livec > GROUP_LIMIT:
             res.append(("sub-limit", k, "%d live subscriptions, limit %d" % (livec, GROUP_LIMIT)))
-        # no attached session of a user whose grant lacks J
+        users, owners, zero_owner = g_view(prev)
+        # no session of a user whose grant lacks J becomes or stays attached at this request
         if v.loaded:
             for sid, u in v.csess.items():
                 g = bits(v.cusers[u]["given"]) if u in v.cusers else 0
-                if not g & J:
-                    stale = (prev is not None and kind == "sub" and a == u and
-                             (u in g_view(prev)[0]) and not g_view(prev)[0][u][0] & J)
+                if g & J:
+                    continue
+                was = prev.loaded and sid in prev.csess
+                if not was:
+                    stale = kind == "sub" and a == u and u in users and not users[u][0] & J
                     res.append(("banned-user-attached" if stale else "attached-without-join", k,
-                                "session %d of user %d is attached, grant %s" % (sid, u, mstr(g))))
-        if prev is None:
-            prev = v
-            continue
-        users, owners, zero_owner = g_view(prev)
+                                "session %d of user %d becomes attached, grant %s" % (sid, u, mstr(g))))
+                elif u in users and users[u][1] & J:
+                    res.append(("ban-without-eviction", k, "session %d of user %d stays attached after the grant became %s" % (sid, u, mstr(g))))
         own = kind == "sub" or (kind == "setsub" and args[1] in (0, a))
         other_t = args[1] if kind == "setsub" and args[1] not in (0, a) else None
         pending = a in users and users[a][1] & O and not users[a][0] & O
@@ -321,6 +340,10 @@ def g_line_f(kind, l):
 
 # --------------------------------------------------------------------------- kinds part
 
+# account default access as the API can produce it (user.go: & ModeCP2P resp. ModeCAuth, | A unless N)
+ACC_DEFAULTS = [63, 63, 63, 31, 31, 0, 23, 19, 55, 17, 51]
+
+
 class KScn:
     def __init__(self, sid, limit=3):
         self.id = sid
@@ -356,7 +379,7 @@ def k_gen(ctx, count):
         sc = KScn("k%d" % i)
         n = rng.choice([3, 3, 4])
         for u in range(1, n + 1):
-            sc.users[u] = (rng.choice([63, 63, 31, 31, 47, 0, 15, 27, 7]), False)
+            sc.users[u] = (rng.choice(ACC_DEFAULTS), False)
         if rng.random() < 0.6:
             sc.users[n + 1] = (rng.choice([31, 63]), True)     # a root account
         s = 0
@@ -394,6 +417,17 @@ def k_gen(ctx, count):
                 m = gen_mode(rng) if rng.random() < 0.45 else ""
                 d = gen_mode(rng) if rng.random() < 0.2 else ""
                 ops.append((si, "sub", [ref, hx(m), hx(d)]))
+                if rng.random() < 0.3 and ref != "sys":
+                    # once attached: name somebody in {set sub} (the peer, a third user, oneself), with or without a mode
+                    t2 = rng.choice([0] + users)
+                    ops.append((si, "setsub", [ref, t2, hx(gen_mode(rng) if rng.random() < 0.6 else "")]))
+                if rng.random() < 0.15 and ref.startswith("u"):
+                    # the peer leaves for good and is invited again
+                    pv = int(ref[1:])
+                    ps = [s for s in sids if sc.sessions[s] == pv]
+                    if ps and pv != u:
+                        ops += [(ps[0], "sub", ["u%d" % u, hx(""), hx("")]), (ps[0], "leave", ["u%d" % u, 1]),
+                                (si, "setsub", [ref, pv, hx(rng.choice(["", "", "JRWPA", "N"]))])]
             elif r < 0.72:
                 t = rng.choice([0, 0] + users)
                 if ref == "sys" and t in (0, u):
@@ -534,17 +568,19 @@ def k_monitor(sc, blocks):
             places = [("stored", t["store"], pt["store"])]
             if t["cache"] is not None:
                 places.append(("cached", t["cache"], pt["cache"] or {}))
-            # attached sessions belong to users whose grant has J
+            # no session of a user whose grant lacks J becomes attached
             if t["cache"] is not None:
                 for s, u in t["sess"].items():
                     g = t["cache"].get(u, (0, 0, False))[1]
-                    if not g & J:
+                    if not g & J and s not in pt["sess"]:
                         res.append(("banned-user-attached" if kind == "sub" and u == a else "attached-without-join", k,
-                                    "%s: session %d of user %d attached, grant %s" % (tok, s, u, mstr(g))))
+                                    "%s: session %d of user %d becomes attached, grant %s" % (tok, s, u, mstr(g))))
             if tok[0] == "p":
                 x, y = (int(z) for z in tok[1:].split("."))
                 for where, rows, prows in places:
                     for u, (wt, g, dl) in rows.items():
+                        if prows.get(u) == (wt, g, dl) and prev is not None:
+                            continue      # nothing new about this row at this request
                         if u not in (x, y):
                             res.append(("p2p-third-participant", k, "%s: %s subscription of user %d (%s/%s) in the p2p topic of %d and %d"
                                         % (tok, where, u, mstr(wt), mstr(g), x, y)))
@@ -557,7 +593,8 @@ def k_monitor(sc, blocks):
                                 res.append(("p2p-initiator-grant-unmasked" if unmasked else "p2p-mode-exceeds-JRWPA", k,
                                             "%s: %s %s of user %d is %s" % (tok, where, nm, u, mstr(m))))
                             if not m & A:
-                                if nm == "given" and g == pacc and not pacc & A:
+                                if g == pacc and not pacc & A and (nm == "given" or wt & ~g == 0):
+                                    # the unmasked peer default (N), and the want derived from it by "grant | default"
                                     law = "p2p-initiator-grant-unmasked"
                                 elif nm == "given" and g == J:
                                     law = "p2p-reinvite-grant-lacks-approve"
@@ -574,25 +611,26 @@ def k_monitor(sc, blocks):
                                 res.append(("p2p-want-changed-unauthorised", k, "%s: %s want of user %d %s -> %s by %s of user %s"
                                             % (tok, where, u, mstr(old[0]), mstr(wt), kind, a)))
                 for s, u in t["sess"].items():
-                    if u not in (x, y):
+                    if u not in (x, y) and s not in pt["sess"]:
                         res.append(("p2p-third-participant", k, "%s: session %d of user %d attached to the p2p topic of %d and %d" % (tok, s, u, x, y)))
             elif tok[0] in "mf":
                 owner = int(tok[1:])
                 for where, rows, prows in places:
                     for u in rows:
-                        if u != owner:
-                            law = "me-fnd-foreign-subscription-by-invite" if (u in prows or (kind == "setsub" and a == owner and args[1] == u)) else "me-fnd-foreign-user"
+                        if u != owner and u not in prows:
+                            law = "me-fnd-foreign-subscription-by-invite" if (kind == "setsub" and a == owner and args[1] == u) else "me-fnd-foreign-user"
                             res.append((law, k, "%s: %s subscription of user %d on the %s topic of user %d" % (tok, where, u, "me" if tok[0] == "m" else "fnd", owner)))
                 for s, u in t["sess"].items():
-                    if u != owner:
-                        res.append(("me-fnd-foreign-attach", k, "%s: session %d of user %d attached" % (tok, s, u)))
+                    if u != owner and s not in pt["sess"]:
+                        law = "me-fnd-foreign-subscription-by-invite" if u in t["store"] else "me-fnd-foreign-attach"
+                        res.append((law, k, "%s: session %d of user %d becomes attached" % (tok, s, u)))
             elif tok == "sys":
                 for where, rows, prows in places:
                     for u in rows:
-                        if not sc.users[u][1]:
+                        if not sc.users[u][1] and u not in prows:
                             res.append(("sys-root-only", k, "sys: %s subscription of non-root user %d" % (where, u)))
                 for s, u in t["sess"].items():
-                    if not sc.users[u][1]:
+                    if not sc.users[u][1] and s not in pt["sess"]:
                         res.append(("sys-root-only", k, "sys: session %d of non-root user %d attached" % (s, u)))
             elif tok[0] == "g":
                 livec = sum(1 for (wt, g, dl) in t["store"].values() if not dl)
@@ -806,7 +844,10 @@ def run(ctx):
                       {"head": small.head, "ops": small.ops, "law": law, "detail": detail, "scenarios_failing": len(set(x[1].id for x in lst))})
 
     # ----- correspondence: a disagreement with no failing law is reported with the shrunk history
-    if mism and not fails:
+    failing_ids = set(x[1].id for x in fails)
+    mism_clean = [m for m in mism if m[1].id not in failing_ids]
+    if mism_clean:
+        mism_all, mism = mism, mism_clean
         part, sc, k, d = min(mism, key=lambda x: len(x[1].ops))
         base = sc.clone(sc.ops[:k + 1]) if k >= 0 else sc
         if part == "G":
@@ -817,7 +858,7 @@ def run(ctx):
                       {"correspondence": "projection of C07 (%s part)" % ("group" if part == "G" else "kinds"),
                        "head": base.head, "ops": base.ops, "diff": d})
     elif mism:
-        ctx.notes.append("%d correspondence mismatches this run (monitor failures reported instead); first: %s op %d"
+        ctx.notes.append("%d correspondence mismatches this run, all in scenarios with a failing law (reported above); first: %s op %d"
                          % (len(mism), mism[0][1].id, mism[0][2]))
 
     nt = 0
